@@ -55,12 +55,15 @@ def run(c):
         "in run(callback=…) builds the line writer delivers to the Events the project was loaded with; the relative order of "
         "those lines and the callback's target events is not judged (two consumers)",
         "which member of a dependency cycle detects it depends on the schedule: that one fact is taken from the observed error type",
-        "saveTargetInfo failures after a successful body are modelled (Facts.saveOk) but not injected by the harness",
+        "a failure to record the result after a successful body is injected (a target body replaces its own record, already "
+        "holding the in-progress marker, by a directory): evaluating then failed is the only legal sequence (Facts.saveOk); a "
+        "failure of the in-progress write before the body is modelled (Facts.preSaveOk: [Evaluating, Failed], body not run) and "
+        "inferred from the spy, but not injected",
     ]
     c.coverage["rule"] = (
         "line writer: every string over {a,\\n} up to length 6 (10 thorough) in every chunking, plus an empty chunk in every 7th case; "
         "every sequence of up to 4 (5) calls over six chunks and Flush (writer reused after Flush); seeded random long outputs over 8 symbols. "
-        "events: seeded random projects on disk (2-8 targets in 1-2 packages, random DAG, chunks with/without trailing newline, failing bodies, "
+        "events: seeded random projects on disk (2-8 targets in 1-2 packages, random DAG, chunks with/without trailing newline, failing bodies, bodies that make the recording of their result fail, "
         "target-level always, sources, sometimes a missing dependency, a dependency cycle, a source whose up-to-date check fails), "
         "each built through dawn.Load + Project.Run: dry run, build, dry run, rebuild of the unchanged tree, then a random subset of "
         "sub-target build, edit+build, always, second Run without reload, run(callback=…). A case is non-trivial when the model answer is "
